@@ -6,6 +6,7 @@ import (
 	"encoding/json"
 	"fmt"
 	"reflect"
+	"sort"
 	"strings"
 	"testing/fstest"
 
@@ -27,9 +28,11 @@ func c10FS() fstest.MapFS {
 	return fstest.MapFS{
 		"attrs.vuego":   f(`<p :title="t" :data-a="a" :data-b="b" :data-c="c" class="k" :class="{on: t, off: z, hot: a}" style="color:red;margin:0" :style="{fontSize: fs, color: 'blue', paddingTop: pt}" v-show="z">x</p><a :href="a" :id="b" :rel="c" :lang="t">l</a>`),
 		"maploop.vuego": f(`<ul><li v-for="v in m">{{ v }}</li></ul><ol><li v-for="(i, v) in m2" :data-i="i">{{ v.n }}</li></ol><dl><dt v-for="v in ms">{{ v }}</dt></dl><em v-for="v in mi">{{ v }}</em><u v-for="(k, v) in ma">{{ k }}={{ v }}</u><s v-for="v in mf">{{ v }}</s>`),
-		"comp/card.vuego": f("---\nkind: card\n---\n<template :required=\"title\"><div class=\"card\" :data-kind=\"kind\"><h2>{{ title }}</h2><slot>fallback {{ kind }}</slot><slot name=\"foot\" :n=\"title\"></slot></div></template>"),
-		"comp/once.vuego": f(`<style v-once>.c{}</style><i>{{ who }}</i>`),
-		"include.vuego":   f(`<template include="comp/card.vuego" title="T1" :extra="m"><b>{{ who }}</b><template #foot="{ n }"><u>{{ n }}-{{ who }}</u></template></template><template include="comp/card.vuego" :title="a"></template><div v-for="x in xs"><template include="comp/once.vuego"></template></div>`),
+		// the same expressions meet values of different Go types from one render to the next
+		"typed.vuego":        f(`<p v-if="n == 1">one</p><p v-else>other</p><i :data-t="n + 1">{{ n * 2 }}</i><b v-if="role == 'admin'">adm</b><u>{{ total > 10 ? 'big' : 'small' }}</u><em v-for="x in mixed" v-if="x == 1">{{ x }}</em><s>{{ n }}{{ role }}</s>`),
+		"comp/card.vuego":    f("---\nkind: card\n---\n<template :required=\"title\"><div class=\"card\" :data-kind=\"kind\"><h2>{{ title }}</h2><slot>fallback {{ kind }}</slot><slot name=\"foot\" :n=\"title\"></slot></div></template>"),
+		"comp/once.vuego":    f(`<style v-once>.c{}</style><i>{{ who }}</i>`),
+		"include.vuego":      f(`<template include="comp/card.vuego" title="T1" :extra="m"><b>{{ who }}</b><template #foot="{ n }"><u>{{ n }}-{{ who }}</u></template></template><template include="comp/card.vuego" :title="a"></template><div v-for="x in xs"><template include="comp/once.vuego"></template></div>`),
 		"layouts/base.vuego": f("---\nsite: S\n---\n<html><body data-site=\"{{ site }}\"><main v-html=\"content\"></main><slot name=\"side\">no side</slot></body></html>"),
 		"layouts/post.vuego": f("---\nlayout: base\nkind: post\n---\n<article :data-kind=\"kind\" v-html=\"content\"></article>"),
 		"layout.vuego":       f("---\nlayout: post\ntitle: FM-title\n---\n<h1>{{ title }}</h1><p>{{ who }}</p><template #side><em>{{ title }}</em></template>"),
@@ -82,6 +85,18 @@ func c10Catalogue() []c10Prog {
 	ps = append(ps, c10Prog{name: "struct:vue-maploop", entry: "VueRender", page: "include.vuego", data: c10Struct})
 	ps = append(ps, c10Prog{name: "string:mixed", entry: "RenderString", data: c10Data,
 		page: `<p :data-a="a" :data-b="b" :title="t">{{ who }}</p><template include="comp/once.vuego"></template><template include="comp/once.vuego"></template><i v-for="v in m">{{ v }}</i>`})
+	for name, d := range map[string]map[string]any{
+		"typed:ints":    {"n": 1, "total": 12, "role": "admin", "mixed": []any{1, int64(1), 1.0, 2}},
+		"typed:floats":  {"n": 1.0, "total": 12.5, "role": "user", "mixed": []any{1.0, 2.0}},
+		"typed:int64s":  {"n": int64(1), "total": int64(3), "mixed": []any{int64(1), uint8(1)}},
+		"typed:strings": {"n": "1", "total": "12", "role": 7, "mixed": []any{"1", 1}},
+		"typed:absent":  {"mixed": []any{}},
+	} {
+		d := d
+		ps = append(ps, c10Prog{name: name, entry: "VueRender", page: "typed.vuego", data: func() any { return d }})
+		ps = append(ps, c10Prog{name: name + ":load", entry: "LoadRender", page: "typed.vuego", data: func() any { return d }})
+	}
+	sort.Slice(ps, func(i, j int) bool { return ps[i].name < ps[j].name })
 	ps = append(ps, c10Prog{name: "string:bad", entry: "RenderString", data: c10Data, page: `<p>{{ who | nosuch }}</p>`})
 	return ps
 }
@@ -214,6 +229,9 @@ func runC10(r *Run) {
 		for _, q := range progs {
 			if fmt.Sprintf("%T", p.data()) != "map[string]interface {}" || fmt.Sprintf("%T", q.data()) != "map[string]interface {}" {
 				continue
+			}
+			if strings.HasPrefix(p.name, "typed:") || strings.HasPrefix(q.name, "typed:") {
+				continue // these programs have data of their own: the shared map of this stream is the catalogue's
 			}
 			e := c10NewEngine()
 			shared := c10Data()
